@@ -9,6 +9,7 @@ import HotstuffModel.Driver.BatchMaker
 import HotstuffModel.Driver.MempoolSync
 import HotstuffModel.Driver.Synchronizer
 import HotstuffModel.Driver.Timer
+import HotstuffModel.Driver.ProposerWait
 import HotstuffModel.Model.Committee
 /-
 Model driver: one request per line on stdin (an s-expression), one answer line on stdout.
@@ -43,6 +44,9 @@ structure DState where
 
 def dispatch (st : DState) (e : Sexp) : DState × Sexp :=
   match handlePure e with
+  | some r => (st, r)
+  | none =>
+  match handlePW e with
   | some r => (st, r)
   | none =>
   match Codec.handleCodec e with
